@@ -28,7 +28,7 @@ OBLIGATIONS = [
     'C07.shiftRight_logical_spec', 'C07.countLeadingZeros_spec', 'C07.countLeadingZeros_z_spec',
     # property theorems (lean/Py4hwV/Props/C13.lean) — filled in by PROPS below
 ]
-PROPS = []          # set after the theorem list is final (see bottom of the obligations section)
+PROPS = []          # the property theorems: assigned at the bottom of this file
 
 T1_CLASSES = ['And2', 'Or2', 'Not', 'Buf', 'Bit', 'BitsLSBF', 'Constant', 'Mux2', 'Repeat', 'Range', 'ShiftLeftConstant',
               'ShiftRightConstant', 'ConcatenateMSBF', 'ConcatenateLSBF', 'AddCarryIn', 'Sub', 'Mul', 'ZeroExtend']
@@ -579,6 +579,21 @@ def main(res, tier, rng, replay):
 
 
 PROPS = [
+    # value function
+    'C13.decode_normal', 'C13.sval_decode', 'C13.mag_lt_iff', 'C13.mag_eq_iff',
+    # field extraction (_FP_parts_raw / _FP_parts)
+    'C13.bit31', 'C13.range_e', 'C13.range_m', 'C13.parts_eq',
+    # (1) comparator
+    'C13.fpcmp_fields', 'C13.fpcmp_abs_fields', 'C13.fpcmp_spec', 'C13.fpcmp_abs_spec', 'C13.fpcmp_iff',
+    # (2) conversions
+    'C13.i2f_core', 'C13.inttofp_eq', 'C13.inttofp_spec', 'C13.inttofp_oracle',
+    'C13.fptoint_eq', 'C13.shift_view_right', 'C13.shift_view_left', 'C13.fptoint_small', 'C13.fptoint_mid', 'C13.fptoint_big',
+    'C13.fptoint_spec', 'C13.fptoint_plost_partial', 'C13.fptoint_plost_counterexample', 'C13.fptoint_oracle',
+    # (3) multiplier
+    'C13.fpmul_eq', 'C13.fpmul_ulp', 'C13.fpmul_comm',
+    # (4) adder
+    'C13.fpadd_gap32_counterexample', 'C13.fpadd_swap', 'C13.fpaddCore_eq', 'C13.fpadd_datapath', 'C13.fpadd_comm_fields',
+    'C13.fpadd_comm',
 ]
 
 if __name__ == '__main__':
